@@ -44,10 +44,11 @@ PROPS = {
                 "RowKeep is reflexive and transitive and optimizeAlpha_chain_rowKeep: the heuristic strategies' successive rewrites of one mutable row by any list of trial filters give a kept row; rows_keep_visible (rows related row by row => "
                 "sameVisiblePicture of the whole image); filterLinesStdAlpha_spec (filter_image with alpha, standard strategies, modelled and compared byte for byte: what is written is the plain "
                 "filtering of the rewritten rows - so C19's round trip returns exactly them - and they are kept versions of the original rows). reduced_palette_visible and indexed_to_channels_visible (with alpha optimisation these two are the plain reduction of the image whose fully "
-                "transparent palette entries are blackened - proved as equalities - and blackening changes only invisible colour). Still by correspondence + oracle only: reduced_alpha_channel "
-                "with the alpha flag (a colour key chosen for the transparent pixels) and which candidate a heuristic strategy picks.",
+                "transparent palette entries are blackened - proved as equalities - and blackening changes only invisible colour). reduced_alpha_visible (alpha channel replaced by a colour key: scan invariant, the key is unused among opaque gray pixels, "
+                "transparent pixels stay transparent, opaque ones keep colour and alpha). Every alpha-flagged operation now has a whole-image theorem; which candidate a heuristic strategy picks is "
+                "deliberately free.",
         "technique": "Lean 4 proof (induction over the pixel loop) + correspondence + e2e oracle",
-        "partial_note": "reduced_alpha_channel with the alpha flag (key choice) rests on correspondence + oracle",
+        "partial_note": "all alpha-flagged operations have whole-image theorems; the tie to the code is the correspondence streams",
         "rule": "filter_line with alpha_bytes in {1,2} on rows with random transparent runs (all / none / mixed) for the five filters; e2e with optimize_alpha=true; distinct as C01",
     },
     "C08": {
